@@ -3,7 +3,7 @@ import itertools
 import random
 import sys
 from ..world import tie_check, SymWorld
-from ..leangen import GenFile
+from ..leangen import GenFile, Obligation
 
 PID = 'C12'
 KINDS = ['ivpd', 'ivpn', 'dbvp', 'noc', 'bivp']
@@ -122,6 +122,34 @@ def generate(seeds=(1, 2, 3), tier='quick'):
                          what=f'{base} with ith_unit={j}: equals the condition enforced on output {j} alone (no other column occurs)')
             except KeyError as e:
                 g.failures.append((name, f'retarget failed: {e}'))
+    # overriding enforce() (IBVP1D, all four modes) and DirichletBVP2D with ith_unit on a shared 2-output network
+    from . import C02
+    S2 = C02.scenarios()
+    for base in ['bvp2d'] + ['ibvp_' + m for m in ('dd', 'dn', 'nd', 'nn')]:
+        w1 = SymWorld()
+        t_alone = w1.tree(S2[base](w1))
+        for j in range(2):
+            name = f'{base}_u{j}'
+            sw, outs, st = tie_check(S2[name], seeds[:1], n_rows=(2,))
+            stats['unit_' + name] = st
+            if len(outs[0].cols) != 1:
+                g.failures.append((name, f'enforce with ith_unit={j} returned {len(outs[0].cols)} columns instead of 1'))
+                g.raw(f'theorem {name}_single_column : False := by\n  fail "ith_unit={j}: {len(outs[0].cols)} output columns"\n',
+                      [Obligation(f'{name}_single_column', 'shape', 'one output column', 'ith_unit selects exactly one column')])
+                continue
+            tree = sw.tree(outs[0])
+            g.add_def(name, tree, f'traced: {base} with ith_unit={j} on a 2-output network')
+            others = [s_ for s_ in sw.ctx.syms if s_.startswith('N') and s_ != f'N_2.{j}']
+            if others:
+                g.failures.append((name, f'unit-{j} trace mentions other network outputs: {others}'))
+            rv = list(sw.ctx.vars)
+            try:
+                rhs = retarget_resolved(t_alone, w1.ctx, sw.ctx, {'N': f'N_2.{j}'})
+                hy = [('hx', 'x0 ≠ x1')] + ([('hy', 'y0 ≠ y1')] if base == 'bvp2d' else [])
+                g.thm_eq(f'{name}_only_that_column', rv, rv, name, tree, rhs, hyps=hy,
+                         what=f'{base} with ith_unit={j}: equals the condition enforced on output {j} alone')
+            except (KeyError, ValueError) as e:
+                g.failures.append((name, f'retarget failed: {e}'))
     return g, stats
 
 
@@ -158,6 +186,28 @@ def runtime_checks():
             except ValueError:
                 if k_net == k_cond:
                     bad.append(dict(case='match-rejected', outputs=k_net))
+    # ith_unit: exactly one column comes back, for every unit index (0 included) and every overriding enforce()
+    from neurodiffeq.conditions import DirichletBVP2D
+    zero = lambda z: z * 0
+    for n_out in (2, 3):
+        for j in range(n_out):
+            conds = [('IVP', IVP(0., 1.), 1), ('DirichletBVP', DirichletBVP(0., 0., 1., 1.), 1),
+                     ('DoubleEndedBVP1D-dn', DoubleEndedBVP1D(0., 1., x_min_val=0., x_max_prime=1.), 1),
+                     ('DoubleEndedBVP1D-nn', DoubleEndedBVP1D(0., 1., x_min_prime=0., x_max_prime=1.), 1),
+                     ('DirichletBVP2D', DirichletBVP2D(0., zero, 1., zero, 0., zero, 1., zero), 2),
+                     ('IBVP1D-dd', IBVP1D(0., 1., 0., zero, x_min_val=zero, x_max_val=zero), 2),
+                     ('IBVP1D-dn', IBVP1D(0., 1., 0., zero, x_min_val=zero, x_max_prime=zero), 2),
+                     ('IBVP1D-nn', IBVP1D(0., 1., 0., zero, x_min_prime=zero, x_max_prime=zero), 2)]
+            for cname, c, n_in in conds:
+                c.ith_unit = j
+                net = FCNN(n_in, n_out, hidden_units=(3,))
+                xs = [torch.rand(4, 1, requires_grad=True) for _ in range(n_in)]
+                try:
+                    out = c.enforce(net, *xs)
+                    if tuple(out.shape) != (4, 1):
+                        bad.append(dict(case='ith_unit output width', condition=cname, unit=j, outputs=n_out, shape=list(out.shape)))
+                except Exception as e:
+                    bad.append(dict(case='ith_unit enforce raised', condition=cname, unit=j, outputs=n_out, error=f'{type(e).__name__}: {e}'))
     one = lambda t: t
     for mk in (lambda: IBVP1D(0., 1., 0., one, x_min_val=one, x_max_val=one), lambda: DoubleEndedBVP1D(0., 1., x_min_val=0., x_max_val=1.)):
         c = mk()
